@@ -7,6 +7,7 @@ of tabular reports. All tabular reports are converted to an abstract
 the requested output format.
 """
 
+import contextlib
 from enum import Enum
 from typing import TYPE_CHECKING, Any, ClassVar, Optional
 
@@ -592,8 +593,13 @@ class TableReport(ReportBase):
         if isinstance(value, datetime):
             # Use report's timeFormat, falling back to project's timeformat
             timeformat = self.a("timeFormat")
-            # Check if it's the default - if so, try project's timeformat
-            if timeformat == "%Y-%m-%d":
+            # The report's own format is in force, also when it happens to spell the built-in
+            # default; only a report that states none takes the project's timeformat
+            stated = timeformat != "%Y-%m-%d"
+            if not stated and hasattr(self.report, "provided"):
+                with contextlib.suppress(Exception):
+                    stated = bool(self.report.provided("timeFormat"))
+            if not stated:
                 project_timeformat = self.project.attributes.get("timeformat")
                 if project_timeformat:
                     timeformat = project_timeformat
